@@ -448,6 +448,11 @@ class MirProgram:
                 if rest.startswith("mut "):
                     rest = rest[4:]
                 k = find_top(rest, ": ")
+                if "<impl at " in rest[:k + 40] and rest.find(">::", 0) > k:
+                    # `<impl at file.rs:46:1: 46:35>::NAME: Type = ...`: the span itself contains ": "
+                    e = rest.find(" = ")
+                    head = rest[:e] if e > 0 else rest.rstrip(" {")
+                    k = head.rfind(": ")
                 if k > 0:
                     self.const_index.setdefault(rest[:k], i)
         self._impl_cache = {}
